@@ -40,6 +40,21 @@ Proof.
 Qed.
 
 
+Lemma NoDup_snoc : forall (x : nat) l, NoDup l -> ~ In x l -> NoDup (l ++ [x]).
+Proof.
+  induction l as [|a l IH]; intros H Hx; cbn.
+  - constructor; [intros []|constructor].
+  - inversion H; subst. constructor.
+    + rewrite in_app_iff. intros [H'|[H'|[]]]; [contradiction|]. subst. apply Hx. left. reflexivity.
+    + apply IH; [assumption|]. intros H'. apply Hx. right. exact H'.
+Qed.
+
+Lemma NoDup_add_set : forall x l, NoDup l -> NoDup (add_set x l).
+Proof.
+  intros x l H. unfold add_set. destruct (mem x l) eqn:E; [exact H|].
+  apply NoDup_snoc; [exact H|]. intros Hin. apply mem_In in Hin. congruence.
+Qed.
+
 Lemma is_nil_true : forall A (l : list A), is_nil l = true <-> l = [].
 Proof. intros A [|]; cbn; split; congruence. Qed.
 
@@ -118,6 +133,40 @@ Proof.
     - replace (pre ++ x :: l1) with ((pre ++ [x]) ++ l1) by (rewrite <- app_assoc; reflexivity).
       apply IH; [intros; apply Hin; right; assumption|]. apply Hs; [apply Hin; left; reflexivity|exact H]. }
   apply (G l [] s0); auto.
+Qed.
+
+Lemma fold_left_inv_nodup : forall A S (step : S -> A -> S) (I : list A -> S -> Prop) l s0,
+  NoDup l -> I [] s0 ->
+  (forall pre x s, In x l -> ~ In x pre -> I pre s -> I (pre ++ [x]) (step s x)) ->
+  I l (fold_left step l s0).
+Proof.
+  intros A S step I l s0 Hnd H0 Hs.
+  assert (G : forall l1 pre s, NoDup (pre ++ l1) -> (forall x, In x l1 -> In x l) -> I pre s -> I (pre ++ l1) (fold_left step l1 s)).
+  { induction l1 as [|x l1 IH]; intros pre s Hn Hin H; cbn.
+    - rewrite app_nil_r. exact H.
+    - replace (pre ++ x :: l1) with ((pre ++ [x]) ++ l1) by (rewrite <- app_assoc; reflexivity).
+      apply IH.
+      + rewrite <- app_assoc. exact Hn.
+      + intros; apply Hin; right; assumption.
+      + apply Hs; [apply Hin; left; reflexivity| |exact H].
+        apply NoDup_remove_2 in Hn. intros Hp. apply Hn. apply in_or_app. left. exact Hp. }
+  apply (G l [] s0); auto.
+Qed.
+
+Lemma NoDup_app_intro : forall A (l1 l2 : list A), NoDup l1 -> NoDup l2 ->
+  (forall x, In x l1 -> ~ In x l2) -> NoDup (l1 ++ l2).
+Proof.
+  induction l1 as [|a l1 IH]; intros l2 H1 H2 Hd; cbn; [exact H2|].
+  inversion H1; subst. constructor.
+  - rewrite in_app_iff. intros [H|H]; [contradiction|]. apply (Hd a); [left; reflexivity|exact H].
+  - apply IH; auto. intros x Hx. apply Hd. right. exact Hx.
+Qed.
+
+Lemma NoDup_snoc_gen : forall A (x : A) l, NoDup l -> ~ In x l -> NoDup (l ++ [x]).
+Proof.
+  intros A x l H Hx. apply NoDup_app_intro; auto.
+  - constructor; [intros []|constructor].
+  - intros y Hy [<-|[]]. contradiction.
 Qed.
 
 Section ReachSnoc.
